@@ -690,11 +690,13 @@ class __Class(_pre.Pregex):
         :param str classes: One or more string character class patterns.
         '''
         range_pattern = \
-            r"(?:\\(?:\[|\]|\^|\$|\-|\/|[a-z]|\\)|[^\[\]\^\$\-\/\\])" + \
-            r"-(?:\\(?:\[|\]|\^|\$|\-|\/|[a-z]|\\)|[^\[\]\^\$\-\/\\])"
-        ranges = set(_re.findall(range_pattern, classes))
-        classes = _re.sub(pattern=range_pattern, repl="", string=classes)
-        return (ranges, set(_re.findall(r"\\?.", classes, flags=_re.DOTALL)))
+            r"(?:\\(?:\[|\]|\^|\$|\-|\/|[a-z]|\\)|[^\[\]\^\-\/\\])" + \
+            r"-(?:\\(?:\[|\]|\^|\$|\-|\/|[a-z]|\\)|[^\[\]\^\-\/\\])"
+        # Scan the class from left to right, so that a range can never
+        # start in the middle of an escaped character.
+        tokens = _re.findall(f"{range_pattern}|\\\\?.", classes, flags=_re.DOTALL)
+        ranges = set(t for t in tokens if _re.fullmatch(range_pattern, t, flags=_re.DOTALL))
+        return (ranges, set(tokens).difference(ranges))
 
     
     @staticmethod
